@@ -1,7 +1,7 @@
 #!/usr/bin/env bash
 # Build one variant of the simulator against the CURRENT working tree of the repository.
 #   tools/build.sh <variant>      -> prints the path of the sim binary on stdout
-# Variants: prod hook san ndebug trng-getrandom trng-getentropy trng-syscall trng-devurandom
+# Variants: prod hook hookvol san ndebug trng-getrandom trng-getentropy trng-syscall trng-devurandom
 #           cfg-<cc>-<O>-<bz|vol>   (cc: gcc|clang; O: O0|O1|O2|O3|Os)
 # Everything lands under /verif/build (never /tmp); cached by content hash of the tree and of sim/.
 set -euo pipefail
@@ -81,6 +81,7 @@ if [ ! -x "$OUT" ]; then
   case "$VARIANT" in
     prod) ;;
     hook) FLAGS="$(strip_O "$FLAGS") -O2 -DTINYJAMBU_VERIF";;
+    hookvol) FLAGS="$(strip_O "$FLAGS") -O2 -DTINYJAMBU_VERIF"; EXTRA="-DVERIF_NO_EXPLICIT_BZERO";;   # hook points + the volatile fallback of the clean primitive (what a build without config.h gets)
     ndebug) FLAGS="$(strip_O "$FLAGS") -O2 -DNDEBUG -funsigned-char";;   # somebody else's build: release configuration of most build systems (NDEBUG), plain char unsigned as on ARM/AArch64/PowerPC Linux
     san)  CC=clang; FLAGS="$(strip_O "$FLAGS") -O1 -g -fno-omit-frame-pointer -fsanitize=address -fsanitize-recover=address -mllvm -asan-opt-same-temp=0 -mllvm -asan-opt=0 -DTINYJAMBU_VERIF";;
     trng-getrandom)  TRNG_FLAVOR=getrandom;  TRNG_MODE=macros;;
